@@ -133,11 +133,11 @@ def leaf_ok(fcp: "ref:FcpV2", v: "ref:Value", field: "ref:StructField", ext: "re
     return (v.name == prefix + field.name and v.type == field.type and v.bitstart == start
             and v.bitlength == type_width(fcp, field.type)
             and ite(first_signal_from(ext.signals, field.name, 0) >= 0,
-                    (not is_none(v.extended_data)) and v.extended_data == signal_fields_of(ext, field.name)
+                    v.extended_data == signal_fields_of(ext, field.name)
                     and v.endianess == ite(is_none(signal_fields_of(ext, field.name).get("endianess"))
                                            or signal_fields_of(ext, field.name).get("endianess") == "", "little",
                                            signal_fields_of(ext, field.name).get("endianess")),
-                    is_none(v.extended_data) and v.endianess == "little"))
+                    v.extended_data == empty_options("SignalFields") and v.endianess == "little"))
 
 
 @pure
@@ -148,3 +148,44 @@ def fields_fixed_or_raised(fcp: "ref:FcpV2", fs: "seq[ref:StructField]", unroll:
 @pure
 def all_fixed_struct(fcp: "ref:FcpV2", name: "str", unroll: "bool") -> "bool":
     return fields_fixed(fcp, sorted_fields(struct_of(fcp, name)), unroll, len(sorted_fields(struct_of(fcp, name))))
+
+
+# ---------------------------------------------------------------- C05: the DBC signal that describes one layout piece
+@pure
+def type_signed(t: "ref:Type") -> "bool":
+    """two's complement integer types are the ones whose name starts with i"""
+    return (isinstance(t, SignedType) or isinstance(t, UnsignedType) or isinstance(t, FloatType) or isinstance(t, DoubleType)) \
+        and t.name[0] == "i"
+
+
+@pure
+def type_float(t: "ref:Type") -> "bool":
+    return isinstance(t, FloatType) or isinstance(t, DoubleType)
+
+
+@pure
+def mux_names(enc: "seq[ref:Value]") -> "seq[dyn]":
+    return [piece.extended_data.get("mux_signal") for piece in enc if piece.extended_data.get("mux_signal") is not None]
+
+
+@pure
+def sig_ok(s: "ref:DbcSignal", p: "ref:Value", enc: "seq[ref:Value]") -> "bool":
+    """the cantools signal built for piece p: same position (DBC start bit of a big-endian signal is its MSB: +7 for a
+    byte-aligned field), width, byte order, signedness, float marking, unit and multiplexing"""
+    return (s.name == p.name.replace("::", "_")
+            and s.start == (p.bitstart + 7 if p.endianess != "little" else p.bitstart)
+            and s.length == p.bitlength
+            and s.byte_order == ("big_endian" if p.endianess == "big" else "little_endian")
+            and s.is_signed == type_signed(p.type)
+            and s.is_float == type_float(p.type)
+            and to_dyn(s.unit) == to_dyn(p.unit)
+            and to_dyn(s.multiplexer_signal) == to_dyn(p.extended_data.get("mux_signal"))
+            and s.is_multiplexer == seq_contains(mux_names(enc), to_dyn(p.name))
+            and is_none(s.multiplexer_ids) == is_none(p.extended_data.get("mux_count")))
+
+
+@pure
+def leaf_type(t: "ref:Type") -> "bool":
+    """layout leaves are numeric, enum or (not unrolled) array types with a well-formed name"""
+    return ((isinstance(t, UnsignedType) or isinstance(t, SignedType) or isinstance(t, FloatType) or isinstance(t, DoubleType))
+            and len(t.name) >= 1) or isinstance(t, EnumType)
